@@ -56,6 +56,7 @@ def shrink_case(modsim, case, cls, wd):
             return None
         c = Case(files, ords, entropies, modsim.behaviour(p), pub_fns, case.tag)
         c.structure = st
+        c.cwd = case.cwd
         return c
 
     def holds(st, orders, entropies):
